@@ -267,7 +267,8 @@ def gen_desc(rng, opts=None):
          "value_tables": {}, "free": [], "env": {}}
     if rng.random() < 0.3:
         for t in range(rng.randint(1, 2)):
-            d["value_tables"]["Tab%d" % t] = {str(k): v for k, v in zip(rng.sample(range(0, 16), 3), ["Off", "On", "two words"])}
+            texts_t = rng.choice([["Off", "On", "two words"], ["Off", "On", "two words"], ["trailing ", " leading", 'with "quote"'], ["semi;colon", "x", "y"], []])
+            d["value_tables"]["Tab%d" % t] = {str(k): v for k, v in zip(rng.sample(range(0, 16), 3), texts_t)}
     if rng.random() < 0.2:
         used = set()
         for j in range(rng.randint(1, 2)):
